@@ -369,6 +369,52 @@ pub fn run(cx: &mut Ctx) {
                 }
             });
         }
+        // the same at the window edge after nothing but literals, for each LZ11 reference form and
+        // both LZ11 header forms (4 bytes; zero 24-bit size + 32-bit size word = 8 bytes)
+        cx.case("backref_before_start_after_4090_to_4095_literals", |c| {
+            c.sit("backref_before_start_at_window_edge");
+            for nlit in 4088usize..=4095 {
+                for len in [3usize, 5, 16, 17, 20, 272, 273, 300] {
+                    let mut t: Vec<Tok> = (0..nlit).map(|i| Tok::Lit((i * 11 % 253) as u8)).collect();
+                    t.push(Tok::Ref(len, 4096));
+                    t.push(Tok::Lit(9));
+                    for ext in [false, true] {
+                        let s = lz::encode_ext(Kind::Lz11, &t, nlit + len + 1, ext);
+                        check(c, &s, &format!("LZ11{} : {} literals, then a reference of length {} reaching 4096 back", if ext { " (extended header)" } else { "" }, nlit, len));
+                        check(c, &lz::wrap13(&s), "the same, wrapped");
+                    }
+                    if len <= 18 {
+                        let s = lz::encode(Kind::Lz10, &t, nlit + len + 1);
+                        check(c, &s, &format!("LZ10: {} literals, then a reference of length {} reaching 4096 back", nlit, len));
+                    }
+                }
+            }
+        });
+        // conforming streams that are themselves longer than 16 MiB (mostly literal tokens)
+        cx.case("stream_longer_than_16MiB", |c| {
+            c.sit("stream_longer_than_16MiB");
+            let n = 15_200_000usize;
+            let data: Vec<u8> = (0..n).map(|i| ((i as u32).wrapping_mul(2654435761) >> 13) as u8).collect();
+            // all-literal LZ10 stream written directly: one zero flag byte per eight data bytes
+            let mut s: Vec<u8> = Vec::with_capacity(n + n / 8 + 8);
+            s.extend_from_slice(&[0x10, n as u8, (n >> 8) as u8, (n >> 16) as u8]);
+            for chunk in data.chunks(8) {
+                s.push(0);
+                s.extend_from_slice(chunk);
+            }
+            for e in [Entry::Lz10, Entry::CfLz10] {
+                c.eval(1);
+                match call(c, e, &s) {
+                    None => {}
+                    Some(Err(err)) => c.fail("conforming_rejected", "conforming_rejected", format!("{}: conforming all-literal stream of {} bytes ({} bytes of data) rejected with {}", e.name(), s.len(), n, err)),
+                    Some(Ok(got)) => {
+                        if got != data {
+                            c.fail("wrong_data", "wrong_data", format!("{}: all-literal stream of {} bytes: returned {} bytes, expected {}", e.name(), s.len(), got.len(), n));
+                        }
+                    }
+                }
+            }
+        });
         cx.case("lz11_longest_forms", |c| {
             // lengths the library's compressor never emits: 4097..=65808
             let mut toks = vec![Tok::Lit(7), Tok::Lit(9)];
